@@ -6,3 +6,10 @@ package metrics
 
 // VerifTagsTreeFileName exposes the file name builder of one tags tree (base dir + tag key).
 func VerifTagsTreeFileName(key string, ttBase string) string { return getTagsTreeFileName(key, ttBase) }
+
+// VerifTagKeyAccepted runs the real tag-key check that EncodeDatapoint applies to a datapoint's tags.
+func VerifTagKeyAccepted(key string) bool {
+	th := GetTagsHolder()
+	th.Insert(key, []byte("v"), 0)
+	return th.checkTagKeys() == nil
+}
